@@ -1,3 +1,4 @@
+import BycycleModel.Routing
 import Proofs.Group
 /-!
 # C11 — 2-D group analysis equals per-signal analysis, in order
@@ -38,5 +39,9 @@ theorem C11_unordered_counterexample :
 
 /-! non-vacuity -/
 example : features2d (fun (s o : Nat) => (s, o)) id 0 [2, 0, 1] [10, 20, 30] (.many [1, 2, 3]) = [(10, 1), (20, 2), (30, 3)] := by decide
+
+/-- the wiring of the group functions read off the source: rate, band and the sample switch reach every per-signal analysis (direct, through `partial`, or
+through the proxies), the flattened analysis keeps its samples, the 3-D analysis delegates with axis 0 / None. -/
+theorem C11_routing : ∀ r ∈ Routing.group, Routing.holds Slots.routes r = true := by decide +kernel
 
 end Bycycle
